@@ -160,7 +160,8 @@ size_t lp_feasibility_set_int_size_approx(const lp_feasibility_set_int_t *set) {
     return set->size;
   } else {
     if (mpz_fits_ulong_p(&set->K->M)) {
-      return lp_integer_to_int(&set->K->M) - set->size;
+      // M fits an unsigned long, but not necessarily a long
+      return mpz_get_ui(&set->K->M) - set->size;
     } else {
       // size can't be big enough for an actual size of 0 or 1
       return ULONG_MAX;
